@@ -766,6 +766,8 @@ def main_check(pid, tier, seed, replay=None):
     prop = mod.PROP
     c = Check(prop, tier, seed)
     try:
+        if hasattr(mod, "setup"):  # optional: props/Cxx.py may customise the Check object (all modes, incl. --replay)
+            mod.setup(c)
         c.stage_build()
         c.stage_audit()
         if replay:
